@@ -13,3 +13,10 @@ mod generated_app;
 mod interner;
 mod path_parameters;
 mod traits;
+
+#[cfg(feature = "verif_hooks")]
+pub(crate) fn verif_domain_guard_new(raw: String) -> Result<String, String> {
+    analyses::domain::DomainGuard::new(raw)
+        .map(|g| g.matchit_pattern())
+        .map_err(|e| e.to_string())
+}
